@@ -177,6 +177,11 @@ def register_late():
     except ImportError:
         pass
     try:
+        import helpers_unit
+        UNITS['helpers'] = dict(run=verus_unit(helpers_unit.generate))
+    except ImportError:
+        pass
+    try:
         import verifier_unit
         UNITS['verifier'] = dict(run=verus_unit(verifier_unit.generate))
     except ImportError:
